@@ -19,6 +19,15 @@ const SNIPPETS = [
   ['const a$ = <Comp>{x.y}</Comp>;', []],
   ['const a$ = <KeepAlive>{x}</KeepAlive>;', []],
   ['const a$ = <my-el a="1">k</my-el>;', []],
+  ['const a$ = <div onClick={h1} onclick={h2} onmouseDown={h3} onMouseDown={h4} />;', []],
+  ['const a$ = <Comp onUpdate:modelValue={u1} onUpdate:modelvalue={u2} Class="x" class="y" />;', []],
+  ['const a$ = <Comp><div v-show={s} /></Comp>;', []],
+  ['const a$ = <Comp><input v-model={m$} /></Comp>;\nlet m$ = 1;', []],
+  ['const a$ = <Comp><p v-custom={1}>{t}</p></Comp>;', []],
+  ['const a$ = <Comp>{cond ? <i /> : null}</Comp>;', []],
+  ['const a$ = <Comp>{x?.y}</Comp>;', []],
+  ['const a$ = <Comp>{...kids}</Comp>;', []],
+  ['const a$ = <div style={s1} Style={s2} STYLE="z" />;', []],
   ['function f$() { return <ul>{items.map((i) => <li key={i}>{i}</li>)}</ul>; }', []],
   ['const a$ = <div on={{ click: h }} />;', ['on']],
   ['const a$ = <Comp nativeOn={{ click: h }} id="i" />;', ['on']],
